@@ -26,4 +26,6 @@ regen 3d578af C10 800 C10-servermap-premature-done.json C10.unavailable
 regen 7074209 C10 1600 C10-retrieve-duplicate-share-livelock.json C10.livelock
 regen a67e08b C12 600 C12-modify-retry-keyerror.json C12.wrong-error
 regen 94d30ff C14 600 C14-repair-discards-servermap.json C14.repair-failed
+regen 242469c C35 2000 C35-indexerror-leaves-unvalidated.json C35.state-changed-on-reject
+regen 368e37e C39 3000 C39-overwrite-merge.json C39.final-contents
 rm -rf $S
